@@ -77,7 +77,10 @@ class Proxy(object):
         return self._do("writelines", *a)
 
     def flush(self):
-        return self._real.flush()
+        return self._do("flush")          # (an explicit flush is a point where buffered output can fail, like any write)
+
+    def truncate(self, *a):
+        return self._do("truncate", *a)
 
     def close(self):
         self._tr.events.append({"op": "close", "h": self._hid})
